@@ -439,7 +439,8 @@ class SFloat:
         return ctx().decide(z3.Not(z3.fpIsZero(self.t)))
 
     def __format__(self, spec):
-        raise ModelGap("symbolic float formatted outside the dispatcher")
+        # str.format(...) insists on a real str: return a marker that survives rstrip("0").rstrip(".")
+        return "\x00FMT[" + spec + "]\x00"
 
 
 class SComplex:
@@ -531,28 +532,37 @@ def to_sfloat(o):
 # shadow builtins
 
 
-def vf_float(x=0.0):
-    if isinstance(x, (SFloat, SInt, SBool)):
-        return to_sfloat(x)
-    return builtins.float(x)
+class vf_float(float):
+    """Shadow of ``float``: callable like the builtin (proxies stay symbolic) and usable as a base
+    class by the module under analysis."""
+
+    def __new__(cls, x=0.0):
+        if isinstance(x, (SFloat, SInt, SBool)):
+            return to_sfloat(x)
+        if cls is vf_float:
+            return builtins.float(x)
+        return builtins.float.__new__(cls, x)
 
 
-def vf_int(x=0, *a):
-    if isinstance(x, SInt):
-        return x
-    if isinstance(x, SBool):
-        return SInt(z3.If(x.t, z3.BitVecVal(1, 64), z3.BitVecVal(0, 64)) if INT_CARRIER == "bv" else z3.If(x.t, z3.IntVal(1), z3.IntVal(0)))
-    if isinstance(x, SFloat):
-        c = ctx()
-        if c.decide(z3.fpIsNaN(x.t)):
-            raise ValueError("cannot convert float NaN to integer")
-        if c.decide(z3.fpIsInf(x.t)):
-            raise OverflowError("cannot convert float infinity to integer")
-        if INT_CARRIER == "bv":
-            note_assumption("|float| < 2^63 in int(float)")
-            return SInt(z3.fpToSBV(RTZ, x.t, BV64))
-        return SInt(z3.ToInt(z3.fpToReal(z3.fpRoundToIntegral(RTZ, x.t))))
-    return builtins.int(x, *a)
+class vf_int(int):
+    def __new__(cls, x=0, *a):
+        if isinstance(x, SInt):
+            return x
+        if isinstance(x, SBool):
+            return SInt(z3.If(x.t, z3.BitVecVal(1, 64), z3.BitVecVal(0, 64)) if INT_CARRIER == "bv" else z3.If(x.t, z3.IntVal(1), z3.IntVal(0)))
+        if isinstance(x, SFloat):
+            c = ctx()
+            if c.decide(z3.fpIsNaN(x.t)):
+                raise ValueError("cannot convert float NaN to integer")
+            if c.decide(z3.fpIsInf(x.t)):
+                raise OverflowError("cannot convert float infinity to integer")
+            if INT_CARRIER == "bv":
+                note_assumption("|float| < 2^63 in int(float)")
+                return SInt(z3.fpToSBV(RTZ, x.t, BV64))
+            return SInt(z3.ToInt(z3.fpToReal(z3.fpRoundToIntegral(RTZ, x.t))))
+        if cls is vf_int:
+            return builtins.int(x, *a)
+        return builtins.int.__new__(cls, x, *a)
 
 
 def vf_bool(x=False):
@@ -571,6 +581,10 @@ def vf_abs(x):
 
 def vf_isinstance(obj, cls):
     def one(c):
+        if c is vf_float:
+            c = float
+        elif builtins.isinstance(c, type) and builtins.issubclass(c, vf_int) and c.__name__.startswith(("vf_int", "_vf_int")):
+            c = int
         if isinstance(obj, SFloat):
             return c is float
         if isinstance(obj, SInt):
@@ -594,8 +608,21 @@ def vf_str(x=""):
     return builtins.str(x)
 
 
+def digits10(t):
+    """number of characters of str(int) for a 64-bit carrier value (sign included)"""
+    neg = t < 0
+    a = z3.If(neg, -t, t)
+    n = z3.BitVecVal(1, 64) if z3.is_bv(t) else z3.IntVal(1)
+    one = z3.BitVecVal(1, 64) if z3.is_bv(t) else z3.IntVal(1)
+    for k in range(1, 19):
+        n = n + z3.If(a >= 10**k, one, one - one)
+    return z3.If(neg, n + one, n)
+
+
 def vf_len(x):
     if isinstance(x, SStr):
+        if x.kind == "int_str" and not x.post:
+            return SInt(digits10(x.info["value"].t))
         raise ModelGap("len of symbolic string")
     if hasattr(x, "__sym_len__"):
         return x.__sym_len__()
@@ -643,6 +670,8 @@ def vf_fstring(parts):
                 pieces.append(SStr("format", value=v, spec=spec))
             elif isinstance(v, SStr):
                 pieces.append(v)
+            elif type(v).__name__ == "SymStr":
+                pieces.append(v)
             else:
                 if conv == ord("r"):
                     v = repr(v)
@@ -653,6 +682,11 @@ def vf_fstring(parts):
             pieces.append(p)
     if all(builtins.isinstance(p, str) for p in pieces):
         return "".join(pieces)
+    if any(type(p).__name__ == "SymStr" for p in pieces):
+        acc = None
+        for p in pieces:
+            acc = p if acc is None else acc + p
+        return acc
     syms = [p for p in pieces if isinstance(p, SStr)]
     if len(syms) == 1:
         s = syms[0]
@@ -663,7 +697,61 @@ def vf_fstring(parts):
     raise ModelGap("f-string with several symbolic parts")
 
 
+def vf_in(a, container):
+    """``a in container`` for a symbolic number and a set/list/tuple of concrete numbers: one decision
+    on the disjunction (no fork per member)."""
+    if isinstance(a, (SInt, SFloat)) and builtins.isinstance(container, (set, frozenset, list, tuple)):
+        terms = []
+        for m in container:
+            if builtins.isinstance(m, (int, float)) and not builtins.isinstance(m, bool):
+                r = (a == m)
+                if isinstance(r, SBool):
+                    terms.append(r.t)
+        if not terms:
+            return False
+        return ctx().decide(z3.Or(*terms))
+    return a in container
+
+
+class VJoined:
+    """result of sep.join(parts) when some part is abstract"""
+
+    def __init__(self, sep, parts):
+        self.sep = sep
+        self.lines = list(parts)
+
+    def splitlines(self):
+        return list(self.lines)
+
+
+def vf_join(sep, parts):
+    parts = list(parts)
+    if all(builtins.isinstance(p, str) for p in parts) and builtins.isinstance(sep, str):
+        return sep.join(parts)
+    if type(sep).__name__ == "SymStr" or any(type(p).__name__ == "SymStr" for p in parts):
+        from . import e3
+
+        return e3.SymStr.of(sep).join(parts)
+    return VJoined(sep, parts)
+
+
 class _FStringRewriter(ast.NodeTransformer):
+    def visit_Call(self, node):
+        self.generic_visit(node)
+        f = node.func
+        if isinstance(f, ast.Attribute) and f.attr == "join" and isinstance(f.value, ast.Constant) and isinstance(f.value.value, str) and len(node.args) == 1 and not node.keywords:
+            return ast.copy_location(ast.Call(ast.Name("__vf_join__", ast.Load()), [f.value, node.args[0]], []), node)
+        return node
+
+    def visit_Compare(self, node):
+        self.generic_visit(node)
+        if len(node.ops) == 1 and isinstance(node.ops[0], (ast.In, ast.NotIn)):
+            call = ast.Call(ast.Name("__vf_in__", ast.Load()), [node.left, node.comparators[0]], [])
+            if isinstance(node.ops[0], ast.NotIn):
+                call = ast.UnaryOp(ast.Not(), call)
+            return ast.copy_location(call, node)
+        return node
+
     def visit_JoinedStr(self, node):
         self.generic_visit(node)
         elts = []
@@ -692,10 +780,11 @@ def load_instrumented(modname: str, extra_ns=None):
     ns = mod.__dict__
     ns.update(
         float=vf_float, int=vf_int, abs=vf_abs, isinstance=vf_isinstance, str=vf_str, bool=vf_bool, len=vf_len,
-        __vf_fstring__=vf_fstring,
+        __vf_fstring__=vf_fstring, __vf_in__=vf_in, __vf_join__=vf_join,
     )
     if extra_ns:
         ns.update(extra_ns)
+    sys.modules[mod.__name__] = mod  # dataclasses look their module up
     exec(code, ns)
     # ``import math`` inside the module rebinds the name: shadow afterwards
     if "math" in ns:
